@@ -195,7 +195,13 @@ func integerDivide(x, y any) (any, error) {
 			return nil, ErrNotANumber
 		}
 
-		return r, nil
+		// The division rounds, and may round across an integer. The
+		// quotient is only used when the remainder confirms it, otherwise
+		// the operands go through the decimal path like every other
+		// number.
+		if rem := math.FMA(-r, yf, xf); rem == 0 || (math.Abs(rem) < math.Abs(yf) && (rem < 0) == (xf < 0)) {
+			return r, nil
+		}
 	}
 
 	xd, ok := toDecimal(x)
